@@ -436,9 +436,8 @@ class Engine:
             self._memo_attr[key] = Opaque(f"{v.tag}.{attr}")
         outs = [(st, self._memo_attr[key])]
         if v.tag in self.raising_attr_tags:
-            for c in self.user_raises:
-                for s1 in self.apply_user_havoc(st.fork(None, f"attr {attr} raises {c}")):
-                    outs.append((s1, self.raise_(s1, c, origin=f"{v.tag}.{attr}")))
+            for s1 in self.apply_user_havoc(st.fork(None, f"attr {attr} raises")):
+                outs.append((s1, Raised(Exc(frozenset(self.user_raises), origin=f"{v.tag}.{attr}"))))
         return outs
 
     def apply_user_havoc(self, st):
@@ -482,6 +481,9 @@ class Engine:
                 return [(st, Z(a.kind, z3.Concat(a.t, b.t), tag="fstr" if "fstr" in (a.tag, b.tag) else None))]
         if isinstance(a, Tup) and isinstance(b, Tup) and isinstance(op, ast.Add):
             return [(st, Tup(a.items + b.items, a.is_list))]
+        if isinstance(op, ast.Mult) and ((isinstance(a, (Tup, Ref)) and not isinstance(b, (Tup, Ref))) or (isinstance(b, (Tup, Ref)) and not isinstance(a, (Tup, Ref)))):
+            # sequence repetition with a count we do not track: an opaque sequence (only handed to opaque callees)
+            return [(st, Opaque("seq*n"))]
         if isinstance(a, Z) and a.kind.startswith("seq:") and isinstance(b, Tup) and isinstance(op, ast.Add):
             return [(st, Z(a.kind, z3.Concat(a.t, self.tup_to_seq(st, b, a.kind).t)))] if b.items else [(st, a)]
         if isinstance(op, ast.BitOr):
